@@ -1333,9 +1333,6 @@ func (l *Lexer) quotedIdentifier(invalidMode mode, tokenType token.Type, untermi
 				return l.lexError(invalidHexEscapeError)
 			}
 			lexemeBuff.WriteByte(byte(value))
-		case '\n':
-			l.incrementLine()
-			fallthrough
 		default:
 			l.pushMode(invalidMode)
 			l.pushMode(invalidEscapeMode)
@@ -1534,6 +1531,11 @@ func (l *Lexer) scanInvalidEscape() *token.Token {
 
 	char, _ = l.advanceChar()
 	lexemeBuff.WriteRune(char)
+	if char == '\n' {
+		// the line is counted here and not where the escape was detected,
+		// the lexer has been rewound to the backslash since then
+		l.incrementLine()
+	}
 
 	return l.lexError(fmt.Sprintf("invalid escape sequence `%s` in string literal", lexemeBuff.String()))
 }
@@ -1637,9 +1639,6 @@ func (l *Lexer) scanStringLiteralContent() *token.Token {
 				return l.lexError(invalidHexEscapeError)
 			}
 			lexemeBuff.WriteByte(byte(value))
-		case '\n':
-			l.incrementLine()
-			fallthrough
 		default:
 			l.pushMode(invalidEscapeMode)
 			l.backupChars(2)
